@@ -24,6 +24,7 @@ def pcfg(rng, R, normalise):
 
 
 def generate(rng, tier, shard, nshards):
+    event = gops.variant_event(rng)
     n = 10 if tier == "quick" else 100
     L = 3 if tier == "quick" else 4
     for gi in range(n):
@@ -44,23 +45,23 @@ def generate(rng, tier, shard, nshards):
                     # the parent context, then a sibling, then this context - on one LM object
                     sib = [t for t in sorted(g.V) if t != ctx[-1]]
                     warm = [ctx[:-1]] + [ctx[:-1] + [t] for t in sib] + warm
-                yield gops.event("pnext", dict(base, ctx=ctx, backend=backend, warm=warm), site=f"{backend}LM.p_next", feat=feat)
+                yield event("pnext", dict(base, ctx=ctx, backend=backend, warm=warm), site=f"{backend}LM.p_next", feat=feat)
             for _ in range(4):
                 c2, ext = rng.choice(ctxs[:7]), rng.choice(ctxs[1:7])
-                yield gops.event("pnextseq", dict(base, ctx=c2, ext=ext, backend=backend), site=f"{backend}LM.p_next_seq", feat=feat)
+                yield event("pnextseq", dict(base, ctx=c2, ext=ext, backend=backend), site=f"{backend}LM.p_next_seq", feat=feat)
             for s in ctxs[: 8 if tier == "quick" else 31]:
-                yield gops.event("lmcall", dict(base, s=s, backend=backend), site=f"{backend}LM.__call__", feat=feat)
+                yield event("lmcall", dict(base, s=s, backend=backend), site=f"{backend}LM.__call__", feat=feat)
             for _ in range(3 if tier == "quick" else 8):
                 # the generation loop itself: LM.sample with a scripted draw (random walk in the support the code offers)
                 script = [rng.randrange(6) for _ in range(rng.randint(0, 5))]
                 bound = rng.choice([None, None, 0, 1, 2])
-                yield gops.event("sample", dict(base, script=script, bound=bound, backend=backend), site=f"{backend}LM.sample",
+                yield event("sample", dict(base, script=script, bound=bound, backend=backend), site=f"{backend}LM.sample",
                                  feat=feat + ("+max_tokens" if bound is not None else ""))
         for ctx in ctxs[:7]:
-            yield gops.event("ntw", dict(base, ctx=ctx, backend="earley"), site="Earley.next_token_weights", feat=feat)
-            yield gops.event("ntw", dict(base, ctx=ctx, backend="cky"), site="IncrementalCKY.p_next", feat=feat)
-            yield gops.event("ntw_vs_parser", dict(base, ctx=ctx), site="ntw=parser(ctx+t)", feat=feat)
-        yield gops.event("pnext", dict(base, ctx=[gops.EOS_NAME], backend="earley"), site="earleyLM.p_next", feat=feat)
+            yield event("ntw", dict(base, ctx=ctx, backend="earley"), site="Earley.next_token_weights", feat=feat)
+            yield event("ntw", dict(base, ctx=ctx, backend="cky"), site="IncrementalCKY.p_next", feat=feat)
+            yield event("ntw_vs_parser", dict(base, ctx=ctx), site="ntw=parser(ctx+t)", feat=feat)
+        yield event("pnext", dict(base, ctx=[gops.EOS_NAME], backend="earley"), site="earleyLM.p_next", feat=feat)
     # the same unnormalised identity over a finite semiring with arbitrary recursion
     for gi in range(n // 2):
         srn = "Sat3"
@@ -69,7 +70,7 @@ def generate(rng, tier, shard, nshards):
         feat = fam.feature_key(g)
         for ctx in [[str(x) for x in c] for c in fam.strings(g.V, 2)]:
             for be in ("earley", "cky"):
-                yield gops.event("ntw", {"sr": srn, "G": G, "ctx": ctx, "backend": be}, site=f"ntw[{be}]/Sat3", feat=feat)
+                yield event("ntw", {"sr": srn, "G": G, "ctx": ctx, "backend": be}, site=f"ntw[{be}]/Sat3", feat=feat)
 
 
 def rl_grammar(rng, rare=False):
